@@ -116,6 +116,41 @@ def main():
         e = [x for x in p if x["e"] == "Eval" and x["kind"] == "poll"][0]
         e["d"] = [3, 3]
     expect("poll offset not a generated direction", m_dir, "C14.poll_point_on_direction")
+    # ---- 2b. direct refinement of the design spec (BadsRunRefine): binding demonstration ------
+    from .refine import refine_runs
+
+    def nth(evs, name, pred=lambda e: True, n=1):
+        c = 0
+        for j, e in enumerate(evs):
+            if e["e"] == name and pred(e):
+                c += 1
+                if c == n:
+                    return j
+        raise RuntimeError("no event " + name)
+
+    def bump(name, field, delta, pred=lambda e: True, n=1):
+        def mut(ev):
+            ev[nth(ev, name, pred, n)][field] += delta
+        return mut
+    variants = [("faithful", lambda ev: None, "accepted", None),
+                ("PollEnd.k + 1", bump("PollEnd", "k", 1), "rejected", "ChkMesh"),
+                ("search value + 1", bump("Eval", "yR", 1, lambda e: e["kind"] == "search"), "rejected", "ChkVal"),
+                ("LoopEnd.iter + 1", bump("LoopEnd", "iter", 1), "rejected", "ChkCtr"),
+                ("Reserve.budgeteff - 1", bump("Reserve", "budgeteff", -1), "rejected", "ChkCnt"),
+                ("a poll evaluation deleted",
+                 lambda ev: ev.__delitem__(nth(ev, "Eval", lambda e: e["kind"] == "poll", 2)), "rejected", "ChkCnt")]
+    evsets = []
+    for name, mut, want, group in variants:
+        ev = copy.deepcopy(proj)
+        mut(ev)
+        evsets.append(ev)
+    outs = refine_runs([sc] * len(variants), evsets)
+    for (name, mut, want, group), o in zip(variants, outs):
+        good = o["status"] == want and (group is None or group in (o.get("groups") or []))
+        print(f"selftest 2b refinement against BadsRun.tla, {name}: {o['status']}"
+              + (f" at event {o.get('at')} (group {o.get('groups')})" if o["status"] == "rejected" else "")
+              + (" ok" if good else " FAILED"))
+        ok &= good
     # ---- 3. hook guard off -----------------------------------------------------
     os.environ["PYBADS_VERIF"] = "0"
     try:
